@@ -208,6 +208,16 @@ fn eval(name: &str, a: &[Value]) -> Value {
             }
         }
         "execute_all" => crate::exec::execute_all(&a[0]),
+        "parse_expectation" => {
+            let maker = scrut::expectation::ExpectationMaker::new(scrut::rules::registry::RuleRegistry::default());
+            match maker.parse(&str_arg(&a[0])) {
+                Ok(e) => {
+                    let (kind, expression, optional, multiline) = e.unmake();
+                    json!({"Ok": {"kind": kind, "expression": String::from_utf8_lossy(&expression), "optional": optional, "multiline": multiline}})
+                }
+                Err(err) => json!({"Err": format!("{:#}", err)}),
+            }
+        }
         // {"expectations": n, "items": [{"kind":"U","index":i} | {"kind":"M","index":i,"line":j,"multiline":b} | {"kind":"X","line":j}],
         //  "absolute": bool, "line_number": usize}: render a MalformedOutput outcome with the real pretty renderer
         "pretty_render" => {
